@@ -75,7 +75,7 @@ theorem inv_round_eq (s k : Spec.State) (hs : s.length = 16) (hk : k.length = 16
   exact invMix_xor _ k (invShift_length _) hk
 
 /-- FIPS-197 §5.3.5: InvCipher with round keys `rk` = EqInvCipher with the modified schedule -/
-theorem invCipher_eq_eqInv (rk : Nat → Spec.State) (hrk : ∀ r, (rk r).length = 16) (nr : Nat) (inp : Bytes)
+theorem invCipher_eq_eqInv (rk : Nat → Spec.State) (nr : Nat) (hrk : ∀ r, r ≤ nr → (rk r).length = 16) (inp : Bytes)
     (hi : inp.length = 16) :
     Spec.invCipherRK rk nr inp = Spec.eqInvCipherRK (Spec.dkOf rk nr) nr inp := by
   unfold Spec.invCipherRK Spec.eqInvCipherRK
@@ -93,9 +93,9 @@ theorem invCipher_eq_eqInv (rk : Nat → Spec.State) (hrk : ∀ r, (rk r).length
       intro s hs hl
       have hr := hl r List.mem_cons_self
       have hd : Spec.dkOf rk nr r = Spec.invMixColumns (rk (nr - r)) := by simp [Spec.dkOf, hr]
-      rw [List.foldl_cons, List.foldl_cons, hd, ← inv_round_eq s _ hs (hrk _)]
+      rw [List.foldl_cons, List.foldl_cons, hd, ← inv_round_eq s _ hs (hrk _ (by omega))]
       exact ih _ (invMix_length _) (fun x hx => hl x (List.mem_cons_of_mem _ hx))
-  have hs0 : (Spec.addRoundKey inp (rk nr)).length = 16 := addRK_length _ _ hi (hrk _)
+  have hs0 : (Spec.addRoundKey inp (rk nr)).length = 16 := addRK_length _ _ hi (hrk _ (Nat.le_refl _))
   obtain ⟨h1, h2⟩ := key (List.range' 1 (nr - 1)) _ hs0
     (by intro r hr; have := List.mem_range'_1.mp hr; omega)
   simp only [d0, dn]
